@@ -74,7 +74,7 @@ func BuildOverlay(repoDir, harnessDir string) (map[string][]byte, []string, erro
 }
 
 // SourcePkgs are dependencies executed from source rather than modelled.
-var SourcePkgs = []string{"github.com/pkg/errors", "bytes", "io", "encoding/binary", "github.com/gin-gonic/gin", "container/list", "unicode/utf8"}
+var SourcePkgs = []string{"github.com/pkg/errors", "bytes", "io", "encoding/binary", "github.com/gin-gonic/gin", "container/list", "unicode/utf8", "slices", "cmp"}
 
 func Load(repoDir, harnessDir string, extraPatterns ...string) (*Program, error) {
 	ov, hpk, err := BuildOverlay(repoDir, harnessDir)
